@@ -88,6 +88,9 @@ def gen(rng):
         while float(mx) > half:
             nb -= 1
             mx = mn + step * (nb - 1)
+        # ranges that are not a whole number of steps (one interaction in five): the histogram then has spacing (max-min)/(n-1) != step
+        if nb >= 3 and not s.imc and rng.random() < 0.2 and float(mx + step * Decimal("0.7")) <= half:
+            mx = mx + step * Decimal(rng.choice(["0.4", "0.25", "0.7"]))
         if nb < 2:
             mn, mx = Decimal(0), step
         t1 = rng.choice(present)
@@ -107,7 +110,10 @@ def gen(rng):
     if rng.random() < 0.85:
         s.bonded_names["bond"] = len(s.defs)
         st = Decimal(rng.choice(["0.1", "0.05", "0.2"]))
-        s.defs.append(dict(kind=2, t1="", t2="", t3="", min=Decimal(0), max=Decimal("1.0") if st != Decimal("0.2") else Decimal("1.2"), step=st, cut=Decimal(0), group=0, ia=0))
+        bmax = Decimal("1.0") if st != Decimal("0.2") else Decimal("1.2")
+        if not s.imc and rng.random() < 0.2:
+            bmax += st * Decimal("0.3")          # not a whole number of steps
+        s.defs.append(dict(kind=2, t1="", t2="", t3="", min=Decimal(0), max=bmax, step=st, cut=Decimal(0), group=0, ia=0))
     if s.has_angle and rng.random() < 0.85:
         s.bonded_names["angle"] = len(s.defs)
         st = Decimal(rng.choice(["0.2", "0.4", "0.1"]))
